@@ -168,7 +168,6 @@ impl Sys {
     }
 
     fn sign_cp(&mut self, i: usize, c: &Content) -> bool {
-        self.make_room_for_cp(i);
         let n = self.estate(i).next_counterparty_commit_num;
         let pt = PublicKey::from_secret_key(&self.secp, &SecretKey::from_slice(&cp_secret(n)).unwrap());
         let (to_h, to_c) = c.balances();
@@ -340,7 +339,13 @@ fn run_case(case: usize, nch: usize, script: Option<Vec<Op>>, rng: &mut Rng, len
                 }
             }
         };
+        if let Op::SignCp(i, _) = &op {
+            // not part of the request under observation: let the counterparty revoke first
+            sys.make_room_for_cp(*i);
+        }
         let before: Vec<(u64, u64)> = HASHES.iter().map(|h| sys.flight(*h)).collect();
+        let before_fp = fingerprint(&sys.node);
+        let before_store = store_dump(&sys.world.persister);
         let (coq, j, ok, is_update) = {
             let r = catch_unwind(AssertUnwindSafe(|| match &op {
                 Op::Invoice(h, a) => {
@@ -383,6 +388,21 @@ fn run_case(case: usize, nch: usize, script: Option<Vec<Op>>, rng: &mut Rng, len
         if aborted {
             violations.push("C06: the signer panicked while handling a commitment update".into());
             break;
+        }
+        // C10 / C11 monitors around every request
+        if !ok && !matches!(op, Op::Restart) {
+            let mut d = fingerprint_diff(&before_fp, &fingerprint(&sys.node));
+            d.extend(store_diff(&before_store, &store_dump(&sys.world.persister)));
+            if !d.is_empty() {
+                violations.push(format!("C10: refused {} changed: {}", j, d.join("; ")));
+            }
+        }
+        if !matches!(op, Op::Restart) {
+            let shadow = sys.world.restart(&sys.node_id);
+            let d = fingerprint_diff(&fingerprint(&sys.node), &fingerprint(&shadow));
+            if !d.is_empty() && !violations.iter().any(|v| v.starts_with("C11")) {
+                violations.push(format!("C11: after {} ({}) a restart would differ: {}", j, if ok { "Ok" } else { "Err" }, d.join("; ")));
+            }
         }
         // the property itself, from the harness's own record of accepted contents
         if ok && is_update {
